@@ -753,7 +753,15 @@ func drawSnippet(t *rapid.T, name string, e genEnv) []Op {
 			ops = append(ops, Op{K: "smsvalidate", B: b, A: a, Src: "smssess"})
 		}
 		ops = append(ops, Op{K: "newsess", B: b})
-		switch pick(t, "rpoke", "regen", "totpremove-rec", "smsremove-rec", "totpremove-code", "totpsetup") {
+		if chance(t, "visitfirst", 40) {
+			ops = append(ops, Op{K: "visit", B: b, S: "/open"}) // the half-auth mark is in the session by now
+		}
+		switch pick(t, "rpoke", "regen", "totpremove-rec", "smsremove-rec", "totpremove-code", "totpsetup", "smsenrol", "smsenrol") {
+		case "smsenrol":
+			if c.EmailAuth {
+				ops = append(ops, Op{K: "evstart", B: b, N: 1}, Op{K: "evend", B: b, A: a, N: 1, Src: "evtok", SA: a})
+			}
+			ops = append(ops, Op{K: "smssetup", B: b, S: pick(t, "number", "+15550009", "+4477000")}, Op{K: "smsconfirm", B: b, A: a, Src: "smssess"})
 		case "regen":
 			ops = append(ops, Op{K: "regen", B: b})
 		case "totpremove-rec":
